@@ -57,16 +57,15 @@ type SessionManager struct {
 }
 
 func initSessionManager(gettyConfig *config.Config) {
-	if sessionManager == nil {
-		onceSessionManager.Do(func() {
-			sessionManager = &SessionManager{
-				allSessions:    sync.Map{},
-				serverSessions: sync.Map{},
-				gettyConf:      gettyConfig,
-			}
-			sessionManager.init()
-		})
-	}
+	// (no unsynchronised nil check in front of the Once: that read races with the initialisation)
+	onceSessionManager.Do(func() {
+		sessionManager = &SessionManager{
+			allSessions:    sync.Map{},
+			serverSessions: sync.Map{},
+			gettyConf:      gettyConfig,
+		}
+		sessionManager.init()
+	})
 }
 
 func (g *SessionManager) init() {
